@@ -489,7 +489,7 @@ func TestVerifC02(t *testing.T) {
 		}
 	}
 	// --- round 2 random: all features on, answers with offending records for names and rewrite targets
-	nX := out.Scale(120, 2400)
+	nX := out.Scale(80, 2400)
 	for i := 0; i < nX; i++ {
 		c := plGenCfgX(rnd)
 		if rnd.Chance(2, 3) {
